@@ -302,8 +302,12 @@ def writer_templates(repo: Repo, only: List[str] = None) -> List[Template]:
             if isinstance(st, ast.Assign) and isinstance(st.targets[0], ast.Name) and isinstance(st.value, ast.Constant) and isinstance(st.value.value, str):
                 consts.setdefault(st.targets[0].id, st.value.value)
         fl = Flattener(repo, fn, aliases, consts)
+        # the report file handle: whatever name `with open(...) as <name>` binds in this writer (falls back to `f`)
+        handles = {it.optional_vars.id for w in ast.walk(fn.node) if isinstance(w, ast.With) for it in w.items
+                   if isinstance(it.optional_vars, ast.Name) and isinstance(it.context_expr, ast.Call) and
+                   (dotted_name(it.context_expr.func) or '').split('.')[-1] == 'open'} or {'f'}
         for c in calls_in(fn.node):
-            if isinstance(c.func, ast.Attribute) and c.func.attr == 'write' and isinstance(c.func.value, ast.Name) and c.func.value.id == 'f' and len(c.args) == 1:
+            if isinstance(c.func, ast.Attribute) and c.func.attr == 'write' and isinstance(c.func.value, ast.Name) and c.func.value.id in handles and len(c.args) == 1:
                 segs = fl.flat(fl.strip_identity(c.args[0]))
                 merged: List[Seg] = []
                 for s in segs:
